@@ -51,9 +51,13 @@ func (r *requestContext) Finalize(_ rule.Backend) error {
 
 	zerolog.Ctx(r.AppContext()).Debug().Msg("Creating response")
 
-	uh := r.UpstreamHeaders()
-	for k := range uh {
-		r.rw.Header().Set(k, uh.Get(k))
+	// a header may have been set multiple times (with different values) by the pipeline
+	for k, values := range r.UpstreamHeaders() {
+		r.rw.Header().Del(k)
+
+		for _, value := range values {
+			r.rw.Header().Add(k, value)
+		}
 	}
 
 	for k, v := range r.UpstreamCookies() {
